@@ -444,6 +444,33 @@ Proof.
   split; [destruct p; [congruence|reflexivity]|apply iter_eval_cache_clear].
 Qed.
 
+(* the statement for a leaf, with the start state described instead of computed: the lock of t on the
+   witness stack of the path to the leaf with script s  =  s run from its first byte as a tape object with call
+   count + depth, a copy of the definitions, the stack that lay under the witness items, and the cache, log
+   and random counter of the start; a raise is handed up unchanged, a normal end gets OP_EVAL's treatment of
+   the control flag once per level *)
+Corollary merkle_complete_leaf p t s tid st rest f :
+  subtree t p = Some (Leaf s) ->
+  tdata st tid = tbytes t -> tid < List.length (st_tapes st) ->
+  st_stack st = wstack t p ++ rest -> no_eval_ban ->
+  (to_count (nth_tape st tid) + Z.of_nat (List.length p) <= c_limit cfg)%Z ->
+  s <> [] -> fits cfg s -> 33 <= c_max_item_size cfg ->
+  List.length rest + 2 * List.length p + 2 <= c_max_items cfg ->
+  exists tid' st',
+    run_tape orc cfg (List.length p + S f) tid 0 st =
+      lock_result tid (List.length p) (run_tape orc cfg (S f) tid' 0 st') /\
+    tdata st' tid' = s /\
+    to_count (nth_tape st' tid') = (to_count (nth_tape st tid) + Z.of_nat (List.length p))%Z /\
+    nth_defs st' (to_defs (nth_tape st' tid')) = nth_defs st (to_defs (nth_tape st tid)) /\
+    st_stack st' = rest /\ st_cache st' = st_cache st /\ st_log st' = st_log st /\ st_rand st' = st_rand st.
+Proof.
+  intros Hsub Hd Hlt Hs Hfl Hc Hne Hf Hsz Hsp.
+  exists (fst (descend t p tid st)), (snd (descend t p tid st)).
+  split; [apply (merkle_complete p t (Leaf s) tid st rest f); assumption|].
+  destruct (descend_spec p t (Leaf s) tid st rest Hsub Hs Hd Hlt) as (A1 & A2 & A3 & A4 & A5 & A6 & A7 & _).
+  repeat split; assumption.
+Qed.
+
 (* ---------- the unlocking script ---------- *)
 
 (* PUSH0 <b> *)
@@ -482,11 +509,11 @@ Proof.
   rewrite (read_at orc cfg _ _ _ tid (S (List.length pre)) st (pre ++ [x04]) (len2 v) (v ++ tail) 2 Hd1)
     by (first [rewrite app_length; simpl; lia | rewrite length_len2; reflexivity]).
   cbn [bind]. rewrite be_len2 by exact Hl.
-  assert (Hd2 : tdata st tid = ((pre ++ [x04]) ++ len2 v) ++ v ++ tail) by (rewrite Hd1, <- app_assoc; reflexivity).
+  assert (Hd2 : tdata st tid = ((pre ++ [x04]) ++ len2 v) ++ v ++ tail) by (rewrite Hd1; apply app_assoc).
   rewrite (read_at orc cfg _ _ _ tid _ st ((pre ++ [x04]) ++ len2 v) v tail (blen v) Hd2)
     by (first [rewrite !app_length; simpl; lia | unfold blen; apply Nat2Z.id]).
   rewrite (put_step orc cfg _ _ _ _ st v s Hs Hf Hsp).
-  cbn [interp fr_ptr]. f_equal. rewrite !app_length. simpl. rewrite !app_length. lia.
+  cbn [interp fr_ptr]. f_equal. rewrite app_length. cbn [List.length]. rewrite app_length. lia.
 Qed.
 
 (* the PUSH pseudo-instruction, whatever form the compiler chose *)
@@ -619,4 +646,155 @@ Proof.
   destruct (lock_result 1 (List.length p) _) as [[] fr' st'|e fr' st'| |w0]; reflexivity.
 Qed.
 
+(* ---------- 4. binding, for the lock of a node ---------- *)
+
+(* the lock of [Node l r] on ANY top pair (script, sib): unless the pair hashes to the root, the lock raises
+   at EQUAL_VERIFY, in its own frame; nothing of [script] has run: no tape object was created, cache, log and
+   definitions are those of the start, the stack has only lost the sibling item *)
+Theorem merkle_binding_tree f tid st l r script sib rest :
+  tdata st tid = lock l r -> st_stack st = script :: sib :: rest ->
+  fits cfg script -> fits cfg sib -> 32 <= c_max_item_size cfg -> List.length rest + 4 <= c_max_items cfg ->
+  xor_bytes (H sib) (H (H script)) <> root l r ->
+  run_tape orc cfg (S f) tid 0 st =
+    Raised ScriptExecutionError {| fr_tid := tid; fr_ptr := 33 |} (with_stack st (script :: rest)).
+Proof.
+  intros Hd Hs Hf1 Hf2 Hsz Hsp Hneq.
+  assert (Hd0 : tdata st tid = [] ++ x3c :: root l r) by (rewrite Hd; apply lock_bytes).
+  rewrite (fetch_at orc cfg f tid st 0 [] x3c (root l r) Hd0 eq_refl).
+  change (dispatch (N.to_nat (Byte.to_N x3c))) with OP_MERKLEVAL.
+  assert (Hda : data_at {| fr_tid := tid; fr_ptr := 1 |} st = root l r ++ []).
+  { rewrite app_nil_r. exact (data_at_after tid st [] x3c (root l r) Hd0). }
+  assert (F32 : forall b, List.length b = 32 -> fits cfg b) by (intros b Hb; unfold fits; lia).
+  assert (Hmc : merkle_commit (H (H script)) (H sib) = xor_bytes (H sib) (H (H script))).
+  { unfold merkle_commit. symmetry. apply xor_bytes_zip_pad. rewrite !Hlen. reflexivity. }
+  rewrite (merkleval_binding orc cfg _ _ st (root l r) [] script sib rest (H script) (H (H script)) (H sib) Hda);
+    try (apply Horc); try exact Hs; try exact Hf1; try exact Hf2; try exact Hsp; try lia;
+    try (apply F32; first [apply Hlen | apply root_length]).
+  - rewrite Hmc. rewrite bytes_eqb_neq by (intro E; apply Hneq; symmetry; exact E). reflexivity.
+  - apply root_length.
+  - rewrite Hmc. apply F32. rewrite xor_bytes_length; rewrite !Hlen; reflexivity.
+Qed.
+
+(* contrapositive: whenever the lock of a node does anything else than that raise, the pair on top of the
+   stack hashes to the node's root *)
+Corollary merkle_binding_tree_inv f tid st l r script sib rest :
+  tdata st tid = lock l r -> st_stack st = script :: sib :: rest ->
+  fits cfg script -> fits cfg sib -> 32 <= c_max_item_size cfg -> List.length rest + 4 <= c_max_items cfg ->
+  run_tape orc cfg (S f) tid 0 st <>
+    Raised ScriptExecutionError {| fr_tid := tid; fr_ptr := 33 |} (with_stack st (script :: rest)) ->
+  xor_bytes (H sib) (H (H script)) = root l r.
+Proof.
+  intros Hd Hs Hf1 Hf2 Hsz Hsp Hrun.
+  destruct (bytes_eqb (xor_bytes (H sib) (H (H script))) (root l r)) eqn:E.
+  - apply bytes_eqb_eq. exact E.
+  - exfalso. apply Hrun. apply (merkle_binding_tree f tid st l r script sib rest Hd Hs Hf1 Hf2 Hsz Hsp).
+    intro E'. rewrite E', bytes_eqb_refl in E. discriminate.
+Qed.
+
 End MTP.
+
+(* ---------- 5. pack / unpack ---------- *)
+
+Lemma len2_bytes (v : bytes) : len2 v = [z2b (Z.shiftr (blen v) 8); z2b (blen v)].
+Proof. reflexivity. Qed.
+
+Lemma firstn_after {A} (a b : list A) : firstn (List.length a) (a ++ b) = a.
+Proof. rewrite firstn_app, Nat.sub_diag, firstn_all. simpl. apply app_nil_r. Qed.
+
+Lemma skipn_after' {A} (a b : list A) : skipn (List.length a) (a ++ b) = b.
+Proof. rewrite skipn_app, Nat.sub_diag, skipn_all. reflexivity. Qed.
+
+Lemma len2_decode (v : bytes) :
+  (blen v <? 65536)%Z = true ->
+  Z.to_nat (be_to_Z [z2b (Z.shiftr (blen v) 8); z2b (blen v)]) = List.length v.
+Proof.
+  intro Hl. apply Z.ltb_lt in Hl. change [z2b (Z.shiftr (blen v) 8); z2b (blen v)] with (len2 v).
+  rewrite be_len2 by exact Hl. unfold blen. apply Nat2Z.id.
+Qed.
+
+Definition unpack_ok (t : tree) : Prop :=
+  match t with
+  | Leaf _ => True
+  | Node _ _ => packable t = true -> forall fuel, List.length (pack t) <= fuel -> unpack_fuel fuel (pack t) = Some t
+  end.
+
+Lemma unpack_sub k c :
+  unpack_ok c -> packable c = true -> List.length (pack c) <= k ->
+  (if Byte.eqb (tag c) tag_L then Some (Leaf (pack c)) else unpack_fuel k (pack c)) = Some c.
+Proof.
+  intros Hok Hp Hk. destruct c as [s|l r].
+  - reflexivity.
+  - change (Byte.eqb (tag (Node l r)) tag_L) with false. cbv iota. apply Hok; assumption.
+Qed.
+
+Lemma unpack_pack_all t : unpack_ok t.
+Proof.
+  induction t as [s|l IHl r IHr]; [exact I|].
+  intros Hp fuel Hfuel. cbn [packable] in Hp.
+  apply andb_true_iff in Hp. destruct Hp as [Hp Hr2].
+  apply andb_true_iff in Hp. destruct Hp as [Hp Hr1].
+  apply andb_true_iff in Hp. destruct Hp as [Hl1 Hl2].
+  cbn [pack] in *.
+  set (pl := pack l) in *. set (pr := pack r) in *.
+  rewrite (len2_bytes pl), (len2_bytes pr) in *. cbn [app] in *.
+  destruct fuel as [|k]; [simpl in Hfuel; lia|].
+  assert (Hk : List.length pl <= k /\ List.length pr <= k).
+  { cbn [List.length] in Hfuel. rewrite app_length in Hfuel. cbn [List.length] in Hfuel. lia. }
+  cbn [unpack_fuel].
+  rewrite (len2_decode pl Hl2). rewrite skipn_after', firstn_after.
+  rewrite (len2_decode pr Hr2). rewrite firstn_all.
+  unfold pl, pr. rewrite (unpack_sub k l IHl Hl1) by apply Hk. rewrite (unpack_sub k r IHr Hr1) by apply Hk.
+  reflexivity.
+Qed.
+
+(* unpack (pack t) = Some t for every node all of whose packed subtrees fit the 2-byte length field, i.e.
+   exactly when ScriptNode.pack does not raise struct.error *)
+Theorem pack_unpack l r : packable (Node l r) = true -> unpack (pack (Node l r)) = Some (Node l r).
+Proof. intro Hp. unfold unpack. apply (unpack_pack_all (Node l r) Hp). lia. Qed.
+
+Corollary pack_opt_unpack l r b : pack_opt (Node l r) = Some b -> unpack b = Some (Node l r).
+Proof.
+  unfold pack_opt. destruct (packable (Node l r)) eqn:E; [|discriminate].
+  intro Hb. injection Hb as <-. apply pack_unpack. exact E.
+Qed.
+
+(* ---------- non-vacuity: the premises of merkle_auth hold for a concrete oracle, configuration and tree ---------- *)
+Module Demo.
+Definition H (b : bytes) : bytes := firstn 32 (b ++ repeat x00 32).
+Lemma H_len b : List.length (H b) = 32.
+Proof. unfold H. rewrite firstn_length, app_length, repeat_length. lia. Qed.
+Definition orc : oracle :=
+  fun p args => match p, args with PSha256, [b] => OOk [H b] | _, _ => OErr OtherError end.
+Lemma orc_H b : orc PSha256 [b] = OOk [H b].
+Proof. reflexivity. Qed.
+Definition cfg : config :=
+  {| c_max_items := 64; c_max_item_size := 64; c_limit := 8; c_flags := []; c_sigext := [];
+     c_ctplugins := []; c_contracts := []; c_now := 0 |}.
+Definition l : tree := Node (Leaf [x01]) (Leaf [x00]).          (* OP_TRUE | OP_FALSE *)
+Definition r : tree := Leaf [x00; x06; x01].                    (* OP_FALSE OP_POP0 OP_TRUE *)
+
+Example demo_true : exists w st,
+  unlock H (Node l r) [L; L] = Some w /\
+  run_auth_scripts orc cfg (2 * 2 + S 3) [w; lock H l r] [] = AuthVerdict true st.
+Proof.
+  destruct (unlock H (Node l r) [L; L]) as [w|] eqn:E; [|vm_compute in E; discriminate].
+  eexists w, _. split; [reflexivity|].
+  pose proof (merkle_auth orc cfg H orc_H H_len [L; L] l r (Leaf [x01]) w [] 3 eq_refl ltac:(discriminate) E
+             eq_refl ltac:(vm_compute; discriminate) ltac:(unfold fits; simpl; lia) ltac:(simpl; lia) ltac:(simpl; lia))
+    as Hm.
+  cbv zeta in Hm. change (List.length [L; L]) with 2 in Hm. rewrite Hm. clear Hm.
+  vm_compute in E. injection E as <-. vm_compute. reflexivity.
+Qed.
+End Demo.
+
+Print Assumptions merkle_step.
+Print Assumptions merkle_complete.
+Print Assumptions descend_spec.
+Print Assumptions merkle_complete_leaf.
+Print Assumptions merkle_complete_raised.
+Print Assumptions merkle_complete_done.
+Print Assumptions witness_runs.
+Print Assumptions merkle_auth.
+Print Assumptions merkle_binding_tree.
+Print Assumptions merkle_binding_tree_inv.
+Print Assumptions pack_unpack.
